@@ -38,7 +38,7 @@ def check(run, replay, prop):
     for i, f in enumerate(files):
         out = os.path.join(run.tmp, "noderes-%d.json" % i)
         try:
-            extra = [] if replay else ["-budget", "600s" if thorough else "40s"]
+            extra = [] if replay else ["-budget", "300s" if thorough else "40s"]
             if f.endswith("node-schema.ndjson") and not thorough:
                 extra += ["-stride", "3", "-offset", str(run.seed % 3)]
             run.run_driver(binary, ["-beh", f, "-out", out] + extra, timeout=4000)
